@@ -2325,6 +2325,11 @@ def splitMultipleSubst(oldSubTable, newSubTable, overflowRecord):
         # doesn't overflow.
         newLen = overflowRecord.itemIndex - 1
 
+    if not 0 < newLen < oldLen:
+        # nothing to split off (e.g. a single glyph with a huge set): moving
+        # everything to the new subtable would just overflow again, forever
+        return False
+
     newSubTable.mapping = {}
     for i in range(newLen, oldLen):
         item = oldMapping[i]
@@ -2354,6 +2359,11 @@ def splitAlternateSubst(oldSubTable, newSubTable, overflowRecord):
         # to the Coverage table doesn't overflow.
         newLen = overflowRecord.itemIndex - 1
 
+    if not 0 < newLen < oldLen:
+        # nothing to split off (e.g. a single glyph with a huge set): moving
+        # everything to the new subtable would just overflow again, forever
+        return False
+
     newSubTable.alternates = {}
     for i in range(newLen, oldLen):
         item = oldAlts[i]
@@ -2379,6 +2389,11 @@ def splitLigatureSubst(oldSubTable, newSubTable, overflowRecord):
         # from the overflowed AlternateSet index to make sure the offset
         # to the Coverage table doesn't overflow.
         newLen = overflowRecord.itemIndex - 1
+
+    if not 0 < newLen < oldLen:
+        # nothing to split off (e.g. a single glyph with a huge set): moving
+        # everything to the new subtable would just overflow again, forever
+        return False
 
     newSubTable.ligatures = {}
     for i in range(newLen, oldLen):
